@@ -263,6 +263,8 @@ theorem parseContextBody_le : ∀ (fuel : Nat) (par : Parser) (hs hs' : List Hun
       have h1 := parseContextHunk_lt _ _ _ _ _ _ h1
       split at h
       · simp at h
+      split at h
+      · simp at h
       · simp only [] at h
         split at h <;> (
         split at h
